@@ -130,7 +130,9 @@ Case generate(vf::Src& src, const std::string&)
         g.desc = src.coin(50) ? "" : "description of group " + std::to_string(i);
         c.groups.push_back(g);
     }
-    int ne = src.weighted({ 5, 10, 15, 20, 20, 15, 10, 5 }) + (src.coin(20) ? 5 : 0);
+    int ne = static_cast<int>(src.weighted({ 5, 10, 15, 20, 20, 15, 10, 5 })) + (src.coin(20) ? 5 : 0);
+    if (src.coin(5))
+        ne = src.irange(26, 60); // more entries than letters in the alphabet
     std::string letters = "abcdefghijklmnopqrstuvwxyzABCDEFG0123456789";
     std::set<std::string> used;
     for (int i = 0; i < ne; ++i)
